@@ -65,7 +65,7 @@ def complete_maps(prog):
         for el in fn.all_elements():
             for c in ir.calls_in(fn, el.e):
                 if c[1] and c[2] and ir.peel(fn, c[2][0]) == pk:
-                    if MUL_COF.match(c[1]) or re.match(r"^(eb|ed)_(mul(_\w+)?|dbl)$", c[1]):
+                    if MUL_COF.match(c[1]) or re.match(r"^(eb|ed)_(mul(_\w+)?|dbl(_\w+)?)$", c[1]):
                         direct.add(fn)
     # the complete maps by name: entry points and their *_impl / from_field bodies (helpers such as X_map_sswu,
     # X_map_svdw, X_iso, ed_map_ell2_5mod8 are single steps of a map and are not held to the rule)
@@ -141,61 +141,17 @@ def rule_map_cof(ctx, prog, chk):
             return out
         def edge_gen(node, label, atoms, fn=fn, pk=pk):
             # the doublings written as a counted loop: leaving `for (i = 0; i < C; i++) ed_dbl(p, p);` with C >= 3
-            if label != "F":
+            if label != "F" or node.kind != "br":
                 return []
-            t = node.info.get("term") if node.kind == "br" else None
-            c = ir.strip_casts(fn.resolve(t["c"])) if t and t.get("c") is not None else None
-            if not (isinstance(c, list) and c and c[0] == "b" and c[1] == "<"):
+            body = engines.counted_loop_nodes(fn, node, 3)
+            if not body:
                 return []
-            v = ir.strip_casts(fn.resolve(c[2]))
-            bound = ir.peel(fn, c[3])
-            if not (isinstance(v, list) and v[0] == "v" and isinstance(bound, list) and bound[0] == "i" and isinstance(bound[1], int) and bound[1] >= 3):
-                return []
-            vi = v[1]
-            init0 = incs = other = 0
-            for el in fn.all_elements():
-                for sub in ir.walk(fn, el.e):
-                    if sub[0] == "d" and sub[1] == vi:
-                        r = ir.peel(fn, sub[2]) if sub[2] is not None else None
-                        if isinstance(r, list) and r[:2] == ["i", 0]:
-                            init0 += 1
-                        else:
-                            other += 1
-                    elif sub[0] == "=" and ir.strip_casts(sub[1]) == ["v", vi]:
-                        r = ir.peel(fn, sub[2])
-                        if isinstance(r, list) and r[:2] == ["i", 0]:
-                            init0 += 1
-                        else:
-                            other += 1
-                    elif sub[0] == "u" and sub[1] in ("++", "p++") and ir.strip_casts(sub[2]) == ["v", vi]:
-                        incs += 1
-                    elif sub[0] in ("o=",) and ir.strip_casts(sub[2]) == ["v", vi]:
-                        other += 1
-            if init0 != 1 or incs != 1 or other:
-                return []
-            # the loop body: blocks reachable from the taken side without passing the head
-            head = node.block
-            body = set()
-            work = [s for s, lab in node.succ if lab == "T"]
-            seenn = set()
-            dbl = False
-            while work:
-                x = work.pop()
-                if id(x) in seenn or x is node:
-                    continue
-                seenn.add(id(x))
+            for x in body:
                 if x.kind == "el":
                     for cl in ir.calls_in(fn, x.el.e):
                         if cl[1] and re.match(r"^ed_dbl(_\w+)?$", cl[1]) and len(cl[2]) >= 2 and key(fn, cl[2][0]) == pk and key(fn, cl[2][1]) == pk:
-                            dbl = True
-                if x.kind in ("exit", "raise", "noret"):
-                    return []
-                for y, lab in x.succ:
-                    if y.block is not head or y.kind != "br":
-                        work.append(y)
-                if len(seenn) > 200:
-                    return []
-            return [("ev", "cof", pk)] if dbl else []
+                            return [("ev", "cof", pk)]
+            return []
         F = Facts(prog, g, gen=gen, edge_gen=edge_gen, mark_thrown=True)
         bad = None
         nexits = 0
@@ -205,6 +161,9 @@ def rule_map_cof(ctx, prog, chk):
                 continue
             s2 = F._transfer(pr, s)
             if s2 is engines.UNIVERSE:
+                continue
+            s2 = F._edge(pr, l, g.exit, s2)
+            if s2 is engines.INFEASIBLE or s2 is engines.UNIVERSE:
                 continue
             nexits += 1
             if ("ev", "cof", pk) not in s2:
